@@ -11,6 +11,8 @@
 (*       rest of cmdEndTagEndScope is pending                                                *)
 (*   g l ls rs rm  Context.globals / locals / localStack / repeatStack / repeatMap           *)
 (*   py  Context.allowPythonPath     out  the output file      err  exception that escaped   *)
+(*   dw  (history) every write of a computed value: [w |-> "text" | "raw" | "attr", s |-> the *)
+(*       characters written] - what the C18 clauses Escaped / AttrEscaped speak about         *)
 (* The program (prog, sym, macros) is fixed per case; pc and symbol-table values are         *)
 (* 0-based locations as in the code.                                                         *)
 EXTENDS TALCompile
@@ -24,7 +26,7 @@ NoSlots == <<>>                       \* slot maps are sequences of [name, start
 VMInit(g0, py, plen) ==
     [pc |-> 0, ss |-> <<>>, mf |-> 0 - 1, mb |-> 0 - 1, ot |-> 1, oa |-> <<>>, ca |-> <<>>, rac |-> <<>>,
      rv |-> NoRV, tc |-> NoTC, lvd |-> 0, sp |-> NoSlots, cs |-> NoSlots, ps |-> <<>>, plen |-> plen, ret |-> FALSE,
-     g |-> g0, l |-> EmptyF, ls |-> <<>>, rs |-> <<>>, rm |-> EmptyF, py |-> py, out |-> "", err |-> ""]
+     g |-> g0, l |-> EmptyF, ls |-> <<>>, rs |-> <<>>, rm |-> EmptyF, py |-> py, out |-> "", err |-> "", dw |-> <<>>]
 
 Cx(s) == [g |-> s.g, l |-> s.l, rm |-> s.rm, at |-> s.oa, py |-> s.py]
 Cur(s) == prog[s.pc + 1]
@@ -114,6 +116,7 @@ DoOmitTag(s, c) == [s EXCEPT !.ot = IF Truthy(EvalTop(c.e, Cx(s))) THEN 0 ELSE @
 \* ---- cmdOutputStartTag / cmdOutput / cmdNoOp ------------------------------------------------------
 DoStartTag(s, c) ==
     [s EXCEPT !.out = IF s.ot = 1 THEN @ \o TagText(c.tag, s.ca, c.f1 = 1 /\ ~s.tc.on) ELSE @,
+              !.dw = IF s.ot = 1 THEN @ \o [i \in DOMAIN s.ca |-> [w |-> "attr", s |-> EscAttr(s.ca[i].v)]] ELSE @,
               !.pc = IF s.mf # 0 - 1 THEN s.mf ELSE @ + 1]
 DoOutput(s, c) == [s EXCEPT !.out = @ \o c.text, !.pc = @ + 1]
 DoNoOp(s, c) == [s EXCEPT !.pc = @ + 1]
@@ -162,7 +165,8 @@ DoEndTag(s, c) ==
     IF ExpandsInline(s)
     THEN (IF s.tc.v.k = "macro" /\ ~HasMacro(macros, s.tc.v.s) THEN [s EXCEPT !.err = "UnknownMacro"] ELSE DoPush(s))
     ELSE IF s.tc.on
-    THEN EndTail([s EXCEPT !.out = @ \o (IF s.tc.st = 1 THEN PyStr(s.tc.v) ELSE EscText(PyStr(s.tc.v)))], c)
+    THEN LET w == IF s.tc.st = 1 THEN PyStr(s.tc.v) ELSE EscText(PyStr(s.tc.v)) IN
+         EndTail([s EXCEPT !.out = @ \o w, !.dw = Append(@, [w |-> IF s.tc.st = 1 THEN "raw" ELSE "text", s |-> w])], c)
     ELSE EndTail(s, c)
 
 \* ---- the machine: one action per handler ------------------------------------------------------------
@@ -202,6 +206,15 @@ StepOf(s) ==
            [] c.op = METAL_USE_MACRO -> DoUseMacro(s, c) [] c.op = METAL_DEFINE_SLOT -> DoDefineSlot(s, c)
            [] c.op = TAL_ENDTAG_ENDSCOPE -> DoEndTag(s, c)
            [] OTHER -> [s EXCEPT !.err = "BadOpcode"]
+
+\* Escaped / AttrEscaped (C18) on the machine: a value written as text or as an attribute value contains no
+\* markup character; `&` only starts one of the references html.escape produces
+Refs == {"&amp;", "&lt;", "&gt;", "&quot;", "&#x27;"}
+AmpOk(t, i) == \E r \in Refs : i + Len(r) - 1 <= Len(t) /\ SubSeq(t, i, i + Len(r) - 1) = r
+SafeText(t) == \A i \in 1..Len(t) : /\ TX!Ch(t, i) \notin {"<", ">"} /\ (TX!Ch(t, i) = "&" => AmpOk(t, i))
+SafeAttr(t) == SafeText(t) /\ \A i \in 1..Len(t) : TX!Ch(t, i) \notin {"\"", "'"}
+EscapedOn(s) == \A i \in DOMAIN s.dw : s.dw[i].w = "text" => SafeText(s.dw[i].s)
+AttrEscapedOn(s) == \A i \in DOMAIN s.dw : s.dw[i].w = "attr" => SafeAttr(s.dw[i].s)
 
 \* ContextRestored (C18) on the machine: after a completed expansion the Context is as before
 Restored(s, g0) == /\ s.ss = <<>> /\ s.ls = <<>> /\ s.rs = <<>> /\ s.l = EmptyF /\ s.rm = EmptyF /\ s.ps = <<>>
